@@ -56,9 +56,9 @@ def summary(p: Any) -> dict[str, Any]:
             "user_inputs": sorted(part.user_input_names),
             "partition_inputs": sorted(part.partition_input_names),
             "outputs": sorted(part.output_names),
-            "recv": {n: [r.src_rank, repr(r.comm_tag), list(r.shape), str(r.dtype)]
+            "recv": {n: [r.src_rank, distgen.canon_tag(r.comm_tag), list(r.shape), str(r.dtype)]
                      for n, r in sorted(part.name_to_recv_node.items())},
-            "send": {n: [[s.dest_rank, repr(s.comm_tag)] for s in ss]
+            "send": {n: [[s.dest_rank, distgen.canon_tag(s.comm_tag)] for s in ss]
                      for n, ss in sorted(part.name_to_send_nodes.items())},
         }
     from vf.oracle import reflect
